@@ -27,6 +27,9 @@ use crate::compile;
 /// use bounded.
 const MAX_NESTING_DEPTH: usize = 32;
 
+/// Calls whose result depends on when they run, these are never evaluated by the compiler.
+const CLOCK_FUNCTIONS: &[&str] = &["now", "timestamp"];
+
 pub struct CelCompiler<'l> {
     tokenizer: &'l mut dyn Tokenizer,
     bindings: BindContext<'l>,
@@ -1503,6 +1506,20 @@ impl<'l> CelCompiler<'l> {
         i.add_bindings(&self.bindings);
         let details = member_prime_node.details().clone();
         let bc = member_prime_node.into_unresolved_bytecode().resolve();
+
+        // Evaluating the call now is only sound if it cannot mean something else when
+        // the program runs: every identifier in it must name a function, macro or type
+        // (a variable or another program is only known at run time, an unbound one
+        // would be frozen as a failure), and it must not read the clock.
+        let closed = details.params().into_iter().all(|name| {
+            (self.bindings.is_bound(name) || self.bindings.get_type(name).is_some())
+                && !CLOCK_FUNCTIONS.contains(&name)
+        });
+
+        if !closed {
+            return CompiledProg::new(NodeValue::Bytecode(bc.into()), details);
+        }
+
         let r = i.run_raw(&bc, true);
 
         match r {
